@@ -358,20 +358,50 @@ Proof.
   - intro H. inversion H; subst. apply Hx. reflexivity.
 Qed.
 
-Lemma spaces_err_kind table f : forall e trace within err,
-  spaces table f e trace within = Err err -> is_spaces_error err.
+Lemma expr_head_no_err follow f : forall e err, expr_head follow f e <> Err err.
 Proof.
-  induction f as [|f IH]; intros e trace within err H; [discriminate|].
+  induction f as [|f IH]; intros e err; [discriminate|]. rewrite expr_head_S.
+  destruct e; try discriminate; try apply IH.
+  - destruct (followed follow name); [apply IH|discriminate].
+  - destruct children; [discriminate|apply IH].
+Qed.
+
+Lemma expr_tail_no_err follow f : forall e err, expr_tail follow f e <> Err err.
+Proof.
+  induction f as [|f IH]; intros e err; [discriminate|]. rewrite expr_tail_S.
+  destruct e; try discriminate; try apply IH.
+  - destruct (followed follow name); [apply IH|discriminate].
+  - destruct (last_opt children); [apply IH|discriminate].
+Qed.
+
+Lemma adjacent_terminals_no_err follow f cs : forall err, adjacent_terminals follow f cs <> Err err.
+Proof.
+  induction cs as [|a r IH]; intro err; [discriminate|]. destruct r as [|b r']; [discriminate|].
+  cbn [adjacent_terminals].
+  destruct (expr_tail follow f a) as [ta|e1| |] eqn:Ea; cbn [obind];
+    [|exfalso; eapply expr_tail_no_err; eauto|discriminate|discriminate].
+  destruct (expr_head follow f b) as [hb|e2| |] eqn:Eb; cbn [obind];
+    [|exfalso; eapply expr_head_no_err; eauto|discriminate|discriminate].
+  destruct ta; try apply IH. destruct hb; try apply IH. discriminate.
+Qed.
+
+Lemma spaces_err_kind table f : forall e trace within juxt err,
+  spaces table f e trace within juxt = Err err -> is_spaces_error err.
+Proof.
+  induction f as [|f IH]; intros e trace within juxt err H; [discriminate|].
   rewrite spaces_S in H.
-  assert (Hall : forall cs err, sp_all (fun c => spaces table f c trace within) cs = Err err ->
+  assert (Hall : forall cs err, sp_all (fun c => spaces table f c trace within false) cs = Err err ->
                                 is_spaces_error err).
   { intros cs err' H'. eapply sp_all_err; [|exact H']. apply Forall_forall. intros c _ e' He'.
     eapply IH; eauto. }
   destruct e; try discriminate; try (eapply IH; eauto; fail); try (eapply Hall; eauto; fail).
   - destruct (assoc name table); [eapply IH; eauto|discriminate].
   - destruct (sp_all _ children) as [[]|e'| |] eqn:E; cbn [obind] in H; try discriminate.
-    + destruct within; [|discriminate]. destruct (adjacent_terminals children) as [[l r]|]; [|discriminate].
-      inversion H. exact I.
+    + destruct within; [|discriminate].
+      destruct (adjacent_terminals _ f children) as [[[l r]|]|e'| |] eqn:Ea; cbn [obind] in H;
+        try discriminate.
+      * inversion H. exact I.
+      * exfalso. eapply adjacent_terminals_no_err; eauto.
     + inversion H; subst. eapply Hall; eauto.
 Qed.
 
@@ -395,8 +425,8 @@ Proof.
   set (defs2 := defs2_of (spec_of builtins sh us fs (defs1_of defs0)) (defs1_of defs0)).
   destruct (resolution_order defs2) as [ord|e| |] eqn:Ho; cbn [obind].
   - split; [intros [spans H]; discriminate|]. intros [spans H].
-    match type of H with context [spaces ?t ?f ?e [] false] =>
-      destruct (spaces t f e [] false) as [[]|e'| |] eqn:Es end; cbn [obind] in H; try discriminate.
+    match type of H with context [spaces ?t ?f ?e [] false false] =>
+      destruct (spaces t f e [] false false) as [[]|e'| |] eqn:Es end; cbn [obind] in H; try discriminate.
     inversion H; subst e'. apply spaces_err_kind in Es. destruct Es.
   - split; intros [spans H]; inversion H; subst; eexists; reflexivity.
   - split; intros [spans H]; discriminate.
@@ -426,8 +456,8 @@ Proof.
   rewrite (from_grammar_front builtins g sh _ _ _ Hd Hs Hc), Hspecs in He. cbn [obind fst snd] in He.
   cbn zeta in He.
   destruct (resolution_order _) as [ord|e0| |] eqn:Ho; cbn [obind] in He; try discriminate.
-  - match type of He with context [spaces ?t ?f ?x [] false] =>
-      destruct (spaces t f x [] false) as [[]|e'| |] eqn:Es end; cbn [obind] in He; try discriminate.
+  - match type of He with context [spaces ?t ?f ?x [] false false] =>
+      destruct (spaces t f x [] false false) as [[]|e'| |] eqn:Es end; cbn [obind] in He; try discriminate.
     inversion He; subst e'. apply spaces_err_kind in Es. destruct e; try destruct Es.
     rewrite He0. eauto.
   - inversion He; subst e0. apply resolution_order_err_cycle in Ho. destruct Ho as [[spans Heq] _].
